@@ -12,10 +12,19 @@ macro_rules! dispatch {
             "C01" => $f::<c01::C01>($($arg),*),
             "C02" => $f::<c02::C02>($($arg),*),
             "C03" => $f::<c03::C03>($($arg),*),
+            "C04" => $f::<c04::C04>($($arg),*),
+            "C05" => $f::<c05::C05>($($arg),*),
+            "C06" => $f::<c06::C06>($($arg),*),
+            "C16" => $f::<c16::C16>($($arg),*),
+            "C17" => $f::<c17::C17>($($arg),*),
+            "C18" => $f::<c18::C18>($($arg),*),
+            "C19" => $f::<c19::C19>($($arg),*),
             "C07" => $f::<c07::C07>($($arg),*),
             "C08" => $f::<c08::C08>($($arg),*),
             "C09" => $f::<c09::C09>($($arg),*),
+            "C14" => $f::<c14::C14>($($arg),*),
             "C15" => $f::<c15::C15>($($arg),*),
+            "C20" => $f::<c20::C20>($($arg),*),
             "C10" => $f::<c10::C10>($($arg),*),
             "C11" => $f::<c11::C11>($($arg),*),
             "C12" => $f::<c12::C12>($($arg),*),
